@@ -38,8 +38,14 @@ REAL_VS_STUB = {'real': ['srctools.bsp.BSP.read/save, ParsedLump, all lump reade
 ASSUMPTIONS = ['inputs other than the sample map are produced by the library\'s own writers from generated values (C11 decides those writers)',
                'parsed views are compared through the library reader on fresh objects in one fixed access order',
                'the entity lump / pakfile / string tables are compared as parsed content, not bytes',
-               'INFRA / Chaos v25 / VitaminSource containers are not generated']
+               'a view whose parse fails (poisoned inputs) is only required to leave its lumps byte-identical']
 
+POISON = ['PLANES', 'TEXINFO', 'TEXDATA', 'VERTEXES', 'EDGES', 'SURFEDGES', 'FACES', 'ORIGINALFACES', 'BRUSHES', 'BRUSHSIDES', 'NODES', 'LEAFS', 'CUBEMAPS',
+          'OVERLAYS', 'LEAFWATERDATA', 'MODELS', 'PRIMITIVES', 'ENTITIES', 'game:prps:version', 'game:prps', 'game:prpd']
+POISON_VIEWS = {'PLANES': 'planes', 'TEXINFO': 'texinfo', 'TEXDATA': 'texinfo', 'VERTEXES': 'vertexes', 'EDGES': 'surfedges', 'SURFEDGES': 'surfedges', 'FACES': 'faces',
+                'ORIGINALFACES': 'orig_faces', 'BRUSHES': 'brushes', 'BRUSHSIDES': 'brushes', 'NODES': 'nodes', 'LEAFS': 'visleafs', 'CUBEMAPS': 'cubemaps',
+                'OVERLAYS': 'overlays', 'LEAFWATERDATA': 'water_leaf_info', 'MODELS': 'bmodels', 'PRIMITIVES': 'primitives', 'ENTITIES': 'ents',
+                'game:prps:version': 'props', 'game:prps': 'props', 'game:prpd': 'detail_props'}
 HELPERS = ['vis_tree', 'static_prop_models', 'is_cordoned_heuristic', 'static_props', 'read_texture_names']
 _SAMPLE = None
 
@@ -57,6 +63,10 @@ def gen(rng: Rng, tier: str, index: int) -> dict:
         'compress_game': r.pick([[], [], ['prps'], ['prps', 'prpd'], ['prpd']]),
         'steps': [],
     }
+    if case['corpus'] and rng.child('poison').chance(0.12):
+        # a lump this library cannot parse (a record cut short, an unknown static prop version, a nested entity block):
+        # the caller looks at the view, catches the error, and saves
+        case['poison'] = rng.child('poison2').pick(POISON)
     h = rng.child('hist')
     nviews = h.pick([0, 1, 1, 1, 2, 2, 3, 3, 5, 8, 21])
     views = h.sample(G.VIEWS, min(nviews, len(G.VIEWS)))
@@ -123,6 +133,34 @@ def _input_blob(case) -> bytes:
     return blob
 
 
+def _poison(blob: bytes, what: str):
+    """Returns (blob, key) where key identifies the damaged lump (int index or game lump id), or (blob, None)."""
+    c = C.read_container(blob)
+    lumps = {idx: dict(l) for idx, l in c['lumps'].items() if idx != C.GAME_LUMP}
+    games = [dict(g) for g in c['game_lumps']]
+    key = None
+    if what.startswith('game:'):
+        gid = what.split(':')[1].encode()
+        for g in games:
+            if g['id'] == gid and len(g['data']) > 12:
+                if what.endswith(':version'):
+                    g['version'] = 14
+                else:
+                    g['data'] = g['data'][:-3]
+                key = gid
+    elif what == 'ENTITIES':
+        lumps[L.ENTITIES.value]['data'] = b'{\n"classname" "worldspawn"\n{\n"nested" "block"\n}\n}\n\x00'
+        key = L.ENTITIES.value
+    else:
+        idx = L[what].value
+        if len(lumps[idx]['data']) > 1:
+            lumps[idx]['data'] = lumps[idx]['data'][:-1]
+            key = idx
+    if key is None:
+        return blob, None
+    return C.write_container(c['version'], c['revision'], lumps, games, l4d2=c['l4d2'], magic=c['magic']), key
+
+
 def _lump_name(idx):
     try:
         return L(idx).name
@@ -130,8 +168,20 @@ def _lump_name(idx):
         return str(idx)
 
 
-def _compare_containers(out: Outcome, a: dict, b: dict, accessed: set, tag: str, variant: str):
+def _compare_containers(out: Outcome, a: dict, b: dict, accessed: set, tag: str, variant: str, keep=None):
     culprit = f'{variant}|{"+".join(sorted(accessed)) or "none"}'
+    if keep is not None:
+        if isinstance(keep, int):
+            da, db = a['lumps'][keep]['data'], b['lumps'][keep]['data']
+            nm = _lump_name(keep)
+        else:
+            da = next((g['data'] for g in a['game_lumps'] if g['id'] == keep), None)
+            db = next((g['data'] for g in b['game_lumps'] if g['id'] == keep), None)
+            nm = 'game-' + keep.decode()
+        if da != db:
+            out.violate('lump-lost-after-failed-parse:' + nm, culprit,
+                        f'{tag}: the view of lump {nm} could not be parsed (the error was caught); the lump had {len(da or b"")} bytes and has '
+                        f'{len(db or b"")} after the save')
     if (a['version'], a['revision'], a['magic'], a['l4d2']) != (b['version'], b['revision'], b['magic'], b['l4d2']):
         out.violate('header-changed', culprit, f'{tag}: version/revision/magic/order {a["version"], a["revision"], a["magic"], a["l4d2"]} -> '
                     f'{b["version"], b["revision"], b["magic"], b["l4d2"]}')
@@ -184,6 +234,16 @@ def run(case: dict) -> Outcome:
         variant = ('sample' if case['sample'] else f'v{case["version"]}') + ('|l4d2' if case['l4d2'] else '')
     variant = variant + ('|lzma' if case['compress'] else '') + \
         ('|lzma-game' if case['compress_game'] else '')
+    poisoned = None
+    if case.get('poison'):
+        try:
+            blob_a, poisoned = _poison(blob_a, case['poison'])
+        except Exception as exc:
+            out.event('poison-failed', type(exc).__name__)
+            poisoned = None
+        if poisoned is not None:
+            variant += '|poison:' + case['poison']
+    failed_views = set()
     path = simfs.MOUNT + '/maps/a.bsp'
     other = simfs.MOUNT + '/maps/copy/b.bsp'
     fs = SimFS()
@@ -211,9 +271,28 @@ def run(case: dict) -> Outcome:
             op = st[0]
             try:
                 if op == 'access':
-                    getattr(b, st[1])
+                    if poisoned is not None:
+                        try:
+                            getattr(b, st[1])
+                        except Exception as exc:
+                            failed_views.add(st[1])         # the caller catches it and carries on
+                            out.stats['poisoned_view_access_raised'] += 1
+                            out.event(si, 'access-raised', st[1], type(exc).__name__)
+                            continue
+                    else:
+                        getattr(b, st[1])
                     accessed.add(st[1])
                     since_open.add(st[1])
+                elif op == 'helper' and poisoned is not None:
+                    # on a damaged file a helper may fail like the view it reads; the caller catches that too
+                    h = st[1]
+                    try:
+                        getattr(b, h)() if h not in ('static_prop_models', 'static_props', 'read_texture_names') else list(getattr(b, h)())
+                    except Exception as exc:
+                        failed_views.add('helper:' + h)
+                        out.event(si, 'helper-raised', h, type(exc).__name__)
+                        continue
+                    accessed.add('helper:' + h)
                 elif op == 'helper':
                     h = st[1]
                     out.stats['helper_calls'] += 1
@@ -240,11 +319,18 @@ def run(case: dict) -> Outcome:
                     gc.collect()
                 elif op in ('save', 'save_as'):
                     parsed_before = set(b._parsed_lumps)
-                    if op == 'save_as':
-                        b.save(other)
-                        cur_path = other
-                    else:
-                        b.save(cur_path if cur_path != path else None)
+                    try:
+                        if op == 'save_as':
+                            b.save(other)
+                            cur_path = other
+                        else:
+                            b.save(cur_path if cur_path != path else None)
+                    except Exception:
+                        if poisoned is None:
+                            raise
+                        # a writer needed the unparseable view: the save is refused, nothing was written (C12's business)
+                        out.stats['poisoned_save_refused'] += 1
+                        break
                     saves += 1
                     if accessed:
                         out.nontrivial = True
@@ -253,7 +339,10 @@ def run(case: dict) -> Outcome:
                     # judge the file now on disk
                     blob_b = fs.get(cur_path)
                     cont_b = C.read_container(blob_b)
-                    _compare_containers(out, cont_a, cont_b, accessed, f'after save #{saves} (step {si})', variant)
+                    _compare_containers(out, cont_a, cont_b, accessed | failed_views, f'after save #{saves} (step {si})', variant,
+                                        keep=poisoned if failed_views else None)
+                    if failed_views:
+                        out.stats['saves_after_failed_parse'] += 1
                     obs_b = G.observe_all(BSP(cur_path))
                     d = diff(ref, obs_b, tol_default=0.0)
                     if d is not None:
